@@ -12,6 +12,7 @@ import hashlib
 import json
 import os
 import sys
+import threading
 
 from . import terms
 from .sandbox import Sandbox
@@ -71,12 +72,21 @@ class Run:
         self.interposer = interposer
         self.invocations = []    # (build_no, kind, f, path/args) log (C05/C06/C08)
         self.universe = [list(p) for p in scenario.get('universe', [])]
+        self.sinks = {}          # thread ident -> per-thread event list (inside a `par` statement)
+        self.gseq = 0
+        self.par_info = []
 
     # ------------------------------------------------------------------ util
     def ev(self, **kw):
         if kw.get('ev') in ('bf_end', 'sb_end', 'build_end', 'clean'):
             kw['fault'] = bool(self.interposer and self.interposer.take_fault())
-        self.events.append(kw)
+        sink = self.sinks.get(threading.get_ident())
+        if sink is not None:
+            self.gseq += 1
+            kw['_g'] = self.gseq
+            sink.append(kw)
+        else:
+            self.events.append(kw)
         return kw
 
     def new_exc(self):
@@ -307,11 +317,65 @@ class Run:
                 x = self.new_exc()
                 self.ev(ev='fn_end', out='raise', v={'k': 'none'}, x=x.n, prop=False, err='UserError')
                 raise x
+            elif s == 'par':
+                self.run_par(builder, fr, st)
+                fr.obs.append(['par', len(st['branches'])])
             elif s == 'hook':
                 # harness-internal statement: call a python callable (C11 mutations, C17 stragglers)
                 st['fn'](self, builder, fr)
             else:
                 raise ValueError(st)
+
+    def run_par(self, builder, fr, st):
+        """Run the branches (one build_file / subbuild call each) in cooperative threads under
+        the schedule st['preempt']; merge their event blocks into the sequential trace in claim
+        order (executed / reused calls by the time of their claim, rejected duplicates last)."""
+        from .sched import Sched, CoopLock
+        import random as _random
+        rnd = _random.Random(st['rseed']) if st.get('rseed') is not None else None
+        sched = Sched(preempt=st.get('preempt', ()), rnd=rnd, p_switch=st.get('p_switch', 0.0))
+        blocks = [[] for _ in st['branches']]
+        results = [None] * len(st['branches'])
+
+        def mk(i, stmt):
+            def fn():
+                self.sinks[threading.get_ident()] = blocks[i]
+                try:
+                    sub = dict(stmt)
+                    sub['catch'] = True
+                    results[i] = self.call_complex(builder, fr, sub)
+                finally:
+                    self.sinks.pop(threading.get_ident(), None)
+            return fn
+        old_hook = self.interposer.yield_hook if self.interposer else None
+        if self.interposer:
+            self.interposer.yield_hook = sched.yield_point
+        CoopLock.current_sched = sched
+        try:
+            errors = sched.run([mk(i, b) for i, b in enumerate(st['branches'])])
+        finally:
+            CoopLock.current_sched = None
+            if self.interposer:
+                self.interposer.yield_hook = old_hook
+
+        def key(block):
+            ends = [e for e in block if e['ev'] in ('bf_end', 'sb_end')]
+            last = ends[-1] if ends else None
+            inv = [e for e in block if e['ev'] == 'invoke']
+            rejected = bool(last is not None and not last['inv'] and last['out'] == 'raised'
+                            and last.get('err') == 'RuntimeError')
+            t = inv[0]['_g'] if inv else (last['_g'] if last else 0)
+            return (1 if rejected else 0, t)
+        order = sorted(range(len(blocks)), key=lambda i: key(blocks[i]))
+        for i in order:
+            for e in blocks[i]:
+                e.pop('_g', None)
+                self.events.append(e)
+        self.par_info.append({'yields': list(sched.yields), 'switches': sched.switches, 'deadlock': sched.deadlock,
+                              'errors': [repr(x) for x in errors if x is not None], 'order': order})
+        if sched.deadlock or any(x is not None for x in errors):
+            # deadlock or an exception escaping the harness wrapper: recorded as an event the spec rejects
+            self.ev(ev='par_fail', deadlock=sched.deadlock, errors=[repr(x)[:200] for x in errors if x is not None])
 
     # ----------------------------------------------------------------- steps
     def do_build(self, step):
@@ -409,7 +473,11 @@ class Run:
 
     def run(self):
         if self.interposer is not None:
-            self.interposer.install()
+            if self.sc.get('threads'):
+                from .sched import CoopLock
+                self.interposer.install(lock_factory=CoopLock)
+            else:
+                self.interposer.install()
         try:
             return self._run()
         finally:
@@ -436,6 +504,8 @@ class Run:
         if self.interposer is not None:
             out['eligible'] = self.interposer.eligible
             out['fault_fired'] = self.interposer.fault_fired
+        if self.par_info:
+            out['par'] = self.par_info
         return out
 
 
@@ -518,7 +588,7 @@ def _prog_step(prog, fr):
 
 def run_scenario(scenario, parent_dir=None):
     ip = None
-    if scenario.get('interpose') or scenario.get('fault_at') is not None:
+    if scenario.get('interpose') or scenario.get('fault_at') is not None or scenario.get('threads'):
         from .interpose import Interposer
         import random
         shuf = random.Random(scenario['shuffle_listdir']) if scenario.get('shuffle_listdir') is not None else None
